@@ -1292,11 +1292,36 @@ def prove_parse(src_root, ex: Explorer):
         from pyvc import strings as STR
         orig_method = STR.str_method
 
+        class WordPattern:
+            """re.compile(r'[^\\W_]'): search(s) is a match object iff s has a word character"""
+
+            def pyvc_getattr(self, it2, name):
+                if name == 'search':
+                    return Native('search', lambda it3, a, k: MatchOrNone(HASWORD(z3str(unbox(a[0])))))
+                raise Unsupported(f'Pattern.{name}')
+
+        class MatchOrNone:
+            def __init__(self, f):
+                self.f = f
+
+            def pyvc_truth(self, it2):
+                return self.f
+
+            def pyvc_is(self, it2, other):
+                if other is None:
+                    return z3.Not(self.f)
+                return NotImplemented
+
         def re_search(it2, a, k):
-            if unbox(a[0]) != r'[^\W_]':
+            pat = a[0]
+            if isinstance(pat, WordPattern):
+                return MatchOrNone(HASWORD(z3str(unbox(a[1]))))
+            if unbox(pat) != r'[^\W_]':
                 raise Unsupported(f're.search with pattern {a[0]!r}')
-            return Sym(HASWORD(z3str(unbox(a[1]))), 'bool')
+            return MatchOrNone(HASWORD(z3str(unbox(a[1]))))
         it.natives['re.search'] = Native('re.search', re_search)
+        it.natives['re.compile'] = Native('re.compile', lambda it2, a, k: WordPattern() if unbox(a[0]) == r'[^\W_]' and not k else
+                                          (_ for _ in ()).throw(Unsupported(f're.compile({a[0]!r})')))
         INC0, EXC0, WILD0 = (z3.Const(n, z3.SetSort(S)) for n in ('INC0', 'EXC0', 'WILD0'))
         seen = []
 
